@@ -49,6 +49,8 @@ pub struct Handshake {
     pub after_start_ok: Stage,
     pub after_tune_ok: Stage,
     pub after_open: Stage,
+    /// send the (normal) OpenOk only after this much virtual time (ns)
+    pub open_ok_delay_ns: u64,
 }
 
 #[derive(Clone, Debug, PartialEq)]
@@ -73,6 +75,7 @@ impl Default for Handshake {
             after_start_ok: Stage::Normal,
             after_tune_ok: Stage::Normal,
             after_open: Stage::Normal,
+            open_ok_delay_ns: 0,
         }
     }
 }
@@ -481,6 +484,12 @@ impl StdBroker {
                 }
                 AMQPFrame::Method(0, AMQPClass::Connection(connection::AMQPMethod::Open(_))) => {
                     self.stage = 3;
+                    if self.hs.open_ok_delay_ns > 0 {
+                        let at = amiquip::verif::clock::now_ns() + self.hs.open_ok_delay_ns;
+                        let b = frame_bytes(&AMQPFrame::Method(0, AMQPClass::Connection(connection::AMQPMethod::OpenOk(connection::OpenOk { known_hosts: String::new() }))));
+                        self.timed.push_front((at, b));
+                        return;
+                    }
                     let st = self.hs.after_open.clone();
                     Self::stage_out(&st, vec![AMQPFrame::Method(0, AMQPClass::Connection(connection::AMQPMethod::OpenOk(connection::OpenOk { known_hosts: String::new() })))], out);
                 }
@@ -516,6 +525,11 @@ impl StdBroker {
                 AMQPFrame::Method(chan, AMQPClass::Channel(channel::AMQPMethod::CloseOk(_))) => {
                     self.closing_channels.remove(&chan);
                     self.open_channels.remove(&chan);
+                }
+                AMQPFrame::Method(chan, AMQPClass::Channel(channel::AMQPMethod::Close(_))) if self.closing_channels.contains(&chan) => {
+                    // crossing closes: the client's Close is answered although we sent our own
+                    let f = vec![AMQPFrame::Method(chan, AMQPClass::Channel(channel::AMQPMethod::CloseOk(channel::CloseOk {})))];
+                    self.emit_now(&f, out);
                 }
                 AMQPFrame::Method(chan, _) | AMQPFrame::Header(chan, _, _) | AMQPFrame::Body(chan, _) if self.closing_channels.contains(&chan) => {}
                 AMQPFrame::Method(chan, m) => {
